@@ -437,6 +437,14 @@ Theorem C05_term_collect_inv : forall k nl cap s, MInv k nl cap s -> MInv k nl c
 Proof. exact tcollect_inv. Qed.
 Print Assumptions C05_term_collect_inv.
 
+(* the return value of Manager::gc = number of removed inner nodes + number of removed terminals *)
+Theorem C05_term_collect_count : forall k nl s,
+  tcollect_count k nl s =
+  (length (cn (ts_c s)) - length (cn (ts_c (tcollect k nl s)))) +
+  (length (ts_tt s) - length (ts_tt (tcollect k nl s))).
+Proof. exact tcollect_count_spec. Qed.
+Print Assumptions C05_term_collect_count.
+
 (* all handles dropped: no inner node, no terminal, all cap slots free again *)
 Theorem C05_term_collect_all_dropped : forall k nl cap s, MInv k nl cap s ->
   cown (ts_c s) = [] -> ts_own s = [] ->
